@@ -12,6 +12,7 @@ pub mod c05;
 pub mod c06;
 pub mod c11;
 pub mod c12;
+pub mod c13;
 
 pub fn registry() -> Vec<&'static macros::Entry> {
     let mut v = Vec::new();
@@ -21,5 +22,6 @@ pub fn registry() -> Vec<&'static macros::Entry> {
     v.extend(c06::registry());
     v.extend(c11::registry());
     v.extend(c12::registry());
+    v.extend(c13::registry());
     v
 }
